@@ -81,10 +81,10 @@ Proof.
         -- intros _ cur last. cbn [app tok_gen andb]. change (92 =? 34) with false. cbn [andb].
            change (92 =? 92) with true.
            destruct (HB (92 :: cur) [92]) as [l' ->]. exists l'. cbn [rev]. rewrite <- app_assoc. reflexivity.
-      * cbn [ossh_escape]. apply Z.eqb_neq in H34, H92. rewrite H34. split.
-        -- intros cur last. cbn [app tok_gen andb]. rewrite H92, H34.
+      * apply Z.eqb_neq in H34, H92. split.
+        -- intros cur last. cbn [ossh_escape]. rewrite H34. cbn [app tok_gen andb]. rewrite H92, H34.
            destruct (HA (c :: cur) [c]) as [l' ->]. exists l'. cbn [rev]. rewrite <- app_assoc. reflexivity.
-        -- intros _ cur last. cbn [app tok_gen andb]. rewrite H34. cbn [andb]. rewrite H92, H34.
+        -- intros _ cur last. cbn [ossh_escape]. rewrite H34. cbn [app tok_gen andb]. rewrite H34, H92.
            destruct (HA (c :: 92 :: cur) [c]) as [l' ->]. exists l'. cbn [rev]. rewrite <- app_assoc. reflexivity.
 Qed.
 
